@@ -150,6 +150,7 @@ func (x *Exec) execInstr(fr *Frame, st *State, ins ssa.Instruction) {
 		m := x.val(fr, st, t.Map)
 		k := x.val(fr, st, t.Key)
 		v := x.val(fr, st, t.Value)
+		x.assume(st, fmt.Sprintf("(not (= %s 0))", m)) // assignment to an entry of a nil map panics
 		hk, hs, hm := x.mapHas(st, mt)
 		vk, vs, vm := x.mapVal(st, mt)
 		lk, ls, lm := x.mapLen(st, mt)
